@@ -4,7 +4,7 @@ sys.path.insert(0, os.path.dirname(__file__))
 from _common import main
 import vbs_common as V
 
-BOUND = 'files of 4 records x fault position k=1..4 x 8 fault kinds (truncated record, oversized length, undecodable MTI, unknown bitmap bit, bad field length, bad typed value, bad PDS, bad ICC) x blocked/unblocked x latin_1/cp500; operator message checked through print_exception_details'
+BOUND = 'whole-file for loop, and header taken with next() before the loop, and a loop restarted mid-file; files of 4 records x fault position k=1..4 x 8 fault kinds (truncated record, oversized length, undecodable MTI, unknown bitmap bit, bad field length, bad typed value, bad PDS, bad ICC) x blocked/unblocked x latin_1/cp500; operator message checked through print_exception_details'
 
 FAULTS = ['truncated', 'oversize', 'mti', 'bitmap', 'fieldlen', 'typed', 'pds', 'icc']
 
@@ -69,6 +69,14 @@ def oracle(inp):
     rd = IpmReader(io.BytesIO(data), encoding=enc, blocked=blocked)
     got = []
     try:
+        # 'head' records are pulled with next() first (the usual way of taking the file header), the rest by a for loop;
+        # a second iter() in the middle must not change what the k-th record is
+        for _ in range(min(inp.get('head', 0), k - 1)):
+            got.append(next(rd))
+        if inp.get('reiter') and k > 2:
+            for m in rd:
+                got.append(m)
+                break
         for m in rd:
             got.append(m)
     except MciIpmDataError as e:
@@ -96,6 +104,9 @@ def cases(tier, rng):
             for blocked in (False, True):
                 for enc in ('latin_1', 'cp500'):
                     yield {'kind': 'fault', 'k': k, 'fault': fault, 'blocked': blocked, 'enc': enc}
+                    if k > 1 and enc == 'latin_1':
+                        yield {'kind': 'fault', 'k': k, 'fault': fault, 'blocked': blocked, 'enc': enc, 'head': 1}
+                        yield {'kind': 'fault', 'k': k, 'fault': fault, 'blocked': blocked, 'enc': enc, 'head': k - 1, 'reiter': True}
 
 
 if __name__ == '__main__':
